@@ -550,9 +550,10 @@ func TestC23(t *testing.T) {
 		"top/bottom with a tag argument, sample(), holt_winters(), exponential moving averages and other technical-analysis functions",
 		"stddev of a single value: null or NaN both accepted; integral of a single point: 0 or no row both accepted",
 	}
-	nDS := r.N(25, 800)
+	nDS := r.N(40, 500)
 	perDS := r.N(60, 80)
 	var reportDur time.Duration
+	samplesA := 0
 	if os.Getenv("C23_PART") == "B" {
 		nDS = 0
 	}
@@ -604,7 +605,8 @@ func TestC23(t *testing.T) {
 				r.Event("select_group_by_time_"+fn, 1)
 			}
 			r.Event("rows_compared", int64(rows))
-			if rows >= 2 && r.WantSample() && qi%11 == 5 {
+			if rows >= 2 && samplesA < 4 && qi%11 == 5 {
+				samplesA++
 				r.Sample(map[string]any{"part": "A", "dataset": ds.Describe, "query": q.String(), "expected_series": len(exp.Series), "expected_rows": rows})
 			}
 			if class != "" {
@@ -615,7 +617,7 @@ func TestC23(t *testing.T) {
 		}
 		st.Close()
 	}
-	nB := r.N(3000, 150000)
+	nB := r.N(4000, 150000)
 	for i := 0; i < nB; i++ {
 		rg := r.SubRand("reducers", i)
 		s := c23GenSeries(rg)
